@@ -119,7 +119,10 @@ OrderProg(kind, va, vb, X, Y) ==
   IN [key |-> "order/" \o kind \o "/" \o FStr(va) \o "/" \o FStr(vb) \o ToString(X) \o ToString(Y), leaves |-> leaves,
       code |-> pre \o SetToSeq(cmp \cup rem \cup un \cup ident \cup sums)]
 OrderLayouts == {<<<<"a", "b">>, <<"a", "b">>>>, <<<<"a", "b">>, <<"b", "a">>>>, <<<<"a">>, <<"b", "c">>>>, <<<<"a", "b", "c">>, <<"b">>>>, <<<<>>, <<"a">>>>}
+\* quotients beyond the 32-bit integers (a truncation done through an integer cast saturates there)
+Big == FMul(FOfInt(100000), FOfInt(100000))
 OrderProgs == {OrderProg(k, va, vb, L[1], L[2]) : k \in {"D1", "D2"}, va \in Vals, vb \in Vals, L \in OrderLayouts}
+              \cup {OrderProg(k, va, vb, <<"a", "b">>, <<"b", "a">>) : k \in {"D1", "D2"}, va \in {Big, FNeg(Big)}, vb \in {FOfInt(3), FOfInt(-7)}}
 
 Family == IOEnv.FAMILY
 Out == CASE Family = "layout" -> LayoutProgs [] Family = "read" -> ReadProgs [] Family = "kinds" -> KindProgs [] Family = "order" -> OrderProgs
